@@ -10,6 +10,8 @@ import (
 	"time"
 )
 
+var extraCmds = map[string]func([]string){}
+
 func genAll(w *World, filter *regexp.Regexp) ([]*FnGen, []*Obligation) {
 	var keys []string
 	for k := range w.funcs {
@@ -47,6 +49,10 @@ func main() {
 		b, _ := os.ReadFile(os.Args[2])
 		fmt.Print(toUF(string(b)))
 	default:
+		if f, ok := extraCmds[os.Args[1]]; ok {
+			f(os.Args[2:])
+			return
+		}
 		fmt.Fprintln(os.Stderr, "unknown command")
 		os.Exit(2)
 	}
@@ -119,4 +125,27 @@ func cmdRun(args []string) {
 		}
 	}
 	fmt.Printf("%d/%d discharged in %.1fs (solver time %.1fs) %v\n", nd, len(obls), time.Since(t1).Seconds(), d.total, d.stats)
+}
+
+func init() {
+	extraCmds["modset"] = func(args []string) {
+		w, err := LoadWorld("/repo", []string{"/verif/spec/extern"})
+		if err != nil {
+			panic(err)
+		}
+		w.computeModsets()
+		for _, k := range args {
+			f := w.funcs[k]
+			if f == nil {
+				fmt.Println("unknown", k)
+				continue
+			}
+			var ks []string
+			for key, lvl := range w.modset(f) {
+				ks = append(ks, fmt.Sprintf("%s=%d", key, lvl))
+			}
+			sort.Strings(ks)
+			fmt.Println(k, ks)
+		}
+	}
 }
